@@ -166,3 +166,87 @@ class HllMerge(Contract):
     @property
     def loops(self):
         return {0: self._inv}
+
+
+# ======================================================================================
+# the estimator (C17, C07): int mode, float64 as real, LN / POW / INTERP uninterpreted
+# ======================================================================================
+from ..sem import LN, POW  # noqa: E402
+from ..engine import INTERP_FN, CNZ_fn  # noqa: E402
+from .. import sem as _S  # noqa: E402
+
+ESUM = z3.Function("HLL_ESUM", z3.IntSort(), z3.IntSort(), z3.RealSort())  # (registers value, k) -> sum_{i<k} 2^-reg[i]
+_INT = _S.Sem("int")
+
+
+def CNZ(tag):
+    return CNZ_fn(_INT)(tag)
+
+
+@register
+class LinearCounting(Contract):
+    name = "hyperloglog._linear_counting"
+    mode = "int"
+
+    def requires(self, F):
+        yield "n_zero>0", F.n_zero > 0
+
+    def ensures(self, F):
+        yield "spec", F.res == z3.ToReal(F.m) * LN(z3.ToReal(F.m) / z3.ToReal(F.n_zero))
+
+
+@register
+class EstimationFunction(Contract):
+    name = "hyperloglog._estimation_function"
+    mode = "int"
+    ghost_note = "HLL_ESUM(registers, k) = sum over i < k of 2^-registers[i] (recursion on k)"
+
+    def requires(self, F):
+        yield "m<2^31", z3.And(F.m >= 0, F.m < (1 << 31))
+
+    def ghost_defs(self, F):
+        return [ESUM(F.registers.tag, 0) == 0]
+
+    def call_defs(self, F):
+        return ()
+
+    def ensures(self, F):
+        yield "spec", F.res == F.alpha * z3.ToReal(F.m * F.m) / ESUM(F.registers.tag, F.registers.shape[0])
+
+    def _inv(self, F, L):
+        k = L.k
+        yield "total==ESUM(k)", L.var("total") == ESUM(F.registers.tag, k)
+        yield "def:ESUM-step", z3.Implies(
+            z3.And(k >= 0, k < F.registers.shape[0]),
+            ESUM(F.registers.tag, k + 1) == ESUM(F.registers.tag, k) + POW(z3.RealVal(2), -z3.ToReal(F.pre.registers(k))),
+        ), True
+
+    @property
+    def loops(self):
+        return {0: self._inv}
+
+
+def hll_estimate(m, V, thr, alpha, esum, raw_tag, bias_tag):
+    """the documented HyperLogLog++ estimator (property C17's own wording), as a term"""
+    mr = z3.ToReal(m)
+    LC = mr * LN(mr / z3.ToReal(V))
+    E = alpha * z3.ToReal(m * m) / esum
+    B = lambda x: INTERP_FN(x, raw_tag, bias_tag)
+    return z3.If(V > 0, z3.If(LC > z3.ToReal(thr), E - B(E), LC), z3.If(E <= z3.ToReal(5 * m), E - B(E), E))
+
+
+@register
+class HllQuery(Contract):
+    name = "hyperloglog._query"
+    mode = "int"
+
+    def requires(self, F):
+        yield "registers.len==m", F.registers.shape[0] == F.m
+        yield "0<m<2^31", z3.And(F.m > 0, F.m < (1 << 31))
+
+    def ghost_defs(self, F):
+        return [z3.And(CNZ(F.registers.tag) >= 0, CNZ(F.registers.tag) <= F.registers.shape[0])]
+
+    def ensures(self, F):
+        V = F.m - CNZ(F.registers.tag)
+        yield "spec", F.res == hll_estimate(F.m, V, F.threshold, F.alpha, ESUM(F.registers.tag, F.registers.shape[0]), F.raw_estimate.tag, F.bias_data.tag)
